@@ -94,12 +94,14 @@ def unit_sets(tier, seed):
         yield "pseudo-family", families.pseudo_family(), [("-greedy",), ("-size", "-greedy")]
         yield "vocabulary-family", families.vocabulary_family(), c1
         yield "cse-family", families.cse_family(), [("-greedy",), ("-no-simplification", "-greedy")]
+        yield "sibling-family/2", families.sibling_family()[::2], [("-greedy",)]
     else:
         yield "sandwich-family", families.sandwich_family(), c1
         yield "consume-family", families.consume_family(), c1
         yield "pseudo-family", families.pseudo_family(), c2
         yield "vocabulary-family", families.vocabulary_family(), c2
         yield "cse-family", families.cse_family(), c2
+        yield "sibling-family", families.sibling_family(), c1
         yield "tree(CORE,4)", B.tree(B.CORE, 4), c1
         yield "tree(CORE,2)@all", B.tree(B.CORE, 2), configs.all_configs()
         yield "tree(MIXED,4)", B.tree(B.MIXED, 4), c2
